@@ -32,6 +32,137 @@ use crate::{
 
 use regex::Regex;
 
+/// Verification hook, compiled only with `--cfg parol_verif` (never in normal builds): a gate that
+/// lets a test harness decide when a background analysis thread of `Server::check_grammar` starts
+/// its work, when it publishes, and whether it finishes inside the window between its spawn and
+/// the handler's own publish. With the gate unset (`STATE` is `None`, the default) every function
+/// returns immediately and nothing changes.
+#[cfg(parol_verif)]
+pub(crate) mod verif_gate {
+    use std::sync::{Condvar, Mutex, MutexGuard};
+    use std::time::{Duration, Instant};
+
+    /// Points a background analysis thread passes, keyed by the document version it was started for.
+    pub(crate) const STARTED: u8 = 0;
+    pub(crate) const BEFORE_PUBLISH: u8 = 1;
+    pub(crate) const FINISHED: u8 = 2;
+
+    /// A blocked thread gives up waiting after this time (the harness is gone).
+    pub(crate) const GIVE_UP: Duration = Duration::from_secs(300);
+
+    #[derive(Debug, Default)]
+    pub(crate) struct State {
+        /// versions for which `check_grammar` spawned a thread, in spawn order
+        pub(crate) spawned: Vec<i32>,
+        /// (version, point) pairs reached so far
+        pub(crate) reached: Vec<(i32, u8)>,
+        /// (version, point) pairs the harness has released
+        pub(crate) released: Vec<(i32, u8)>,
+        /// versions whose threads are to run to completion inside the next handler's window
+        /// between spawn and publish (consumed by `main_window`)
+        pub(crate) window_plan: Vec<i32>,
+    }
+
+    pub(crate) static STATE: Mutex<Option<State>> = Mutex::new(None);
+    /// signalled when `released` or the gate itself changes (analysis threads wait on it)
+    pub(crate) static RELEASED: Condvar = Condvar::new();
+    /// signalled when `spawned` or `reached` changes (the harness and `main_window` wait on it)
+    pub(crate) static REACHED: Condvar = Condvar::new();
+
+    pub(crate) fn lock() -> MutexGuard<'static, Option<State>> {
+        STATE.lock().unwrap_or_else(|e| e.into_inner())
+    }
+
+    /// Main thread, directly before `thread::spawn`.
+    pub(crate) fn spawned(version: i32) {
+        if let Some(s) = lock().as_mut() {
+            s.spawned.push(version);
+            REACHED.notify_all();
+        }
+    }
+
+    /// Background thread: records that `point` is reached and (except for `FINISHED`) blocks until
+    /// the harness has released it.
+    pub(crate) fn reach(version: i32, point: u8) {
+        let mut guard = lock();
+        match guard.as_mut() {
+            None => return,
+            Some(s) => s.reached.push((version, point)),
+        }
+        REACHED.notify_all();
+        if point == FINISHED {
+            return;
+        }
+        let deadline = Instant::now() + GIVE_UP;
+        loop {
+            match guard.as_ref() {
+                None => return,
+                Some(s) if s.released.contains(&(version, point)) => return,
+                Some(_) => (),
+            }
+            let now = Instant::now();
+            if now >= deadline {
+                return;
+            }
+            guard = RELEASED
+                .wait_timeout(guard, deadline - now)
+                .unwrap_or_else(|e| e.into_inner())
+                .0;
+        }
+    }
+
+    /// Signals `FINISHED` when the background thread's closure is left (also by a panic).
+    pub(crate) struct Finished(i32);
+
+    impl Drop for Finished {
+        fn drop(&mut self) {
+            reach(self.0, FINISHED);
+        }
+    }
+
+    /// Background thread, first statement.
+    pub(crate) fn enter(version: i32) -> Finished {
+        reach(version, STARTED);
+        Finished(version)
+    }
+
+    /// Main thread, between the return of `analyze` (the thread is spawned if it succeeded) and the
+    /// handler's `notify_analysis_ok` / `notify_analysis_error`: runs the threads named in `window_plan` to completion.
+    pub(crate) fn main_window(_version: i32) {
+        let mut guard = lock();
+        let plan = match guard.as_mut() {
+            None => return,
+            Some(s) => std::mem::take(&mut s.window_plan),
+        };
+        for v in plan {
+            if !guard.as_ref().is_some_and(|s| s.spawned.contains(&v)) {
+                continue; // no such thread (the synchronous part failed)
+            }
+            if let Some(s) = guard.as_mut() {
+                s.released.push((v, STARTED));
+                s.released.push((v, BEFORE_PUBLISH));
+            }
+            RELEASED.notify_all();
+            let deadline = Instant::now() + GIVE_UP;
+            loop {
+                match guard.as_ref() {
+                    None => return,
+                    Some(s) if s.reached.contains(&(v, FINISHED)) => break,
+                    Some(_) => (),
+                }
+                let now = Instant::now();
+                if now >= deadline {
+                    return;
+                }
+                guard = REACHED
+                    .wait_timeout(guard, deadline - now)
+                    .unwrap_or_else(|e| e.into_inner())
+                    .0;
+            }
+        }
+    }
+}
+
 macro_rules! update_number_option {
     ($self:ident, $props:ident, $( $option_name:ident ).+, $member_name:ident, $default:literal) => {
         if $props.0.contains_key(stringify!($($option_name).+)) {
@@ -144,18 +275,28 @@ impl Server {
         )?;
         grammar_config.update_cfg(cfg);
         let grammar_config = grammar_config.clone();
+        #[cfg(parol_verif)]
+        verif_gate::spawned(version);
         thread::spawn(move || match grammar_config.grammar_type {
             GrammarType::LLK => {
+                #[cfg(parol_verif)]
+                let _verif_finished = verif_gate::enter(version);
                 if let Err(err) = calculate_lookahead_dfas(&grammar_config, max_k) {
                     eprintln!("check_grammar: errors from calculate_lookahead_dfas");
+                    #[cfg(parol_verif)]
+                    verif_gate::reach(version, verif_gate::BEFORE_PUBLISH);
                     let _ =
                         Self::notify_analysis_error(err, connection, &uri, version, document_state);
                 }
             }
             GrammarType::LALR1 => {
+                #[cfg(parol_verif)]
+                let _verif_finished = verif_gate::enter(version);
                 let result = calculate_lalr1_parse_table(&grammar_config);
                 match result {
                     Ok((_, resolved_conflicts)) => {
+                        #[cfg(parol_verif)]
+                        verif_gate::reach(version, verif_gate::BEFORE_PUBLISH);
                         let _ = Self::notify_resolved_conflicts(
                             resolved_conflicts,
                             connection,
@@ -165,6 +306,8 @@ impl Server {
                     }
                     Err(err) => {
                         eprintln!("check_grammar: errors from calculate_lookahead_dfas");
+                        #[cfg(parol_verif)]
+                        verif_gate::reach(version, verif_gate::BEFORE_PUBLISH);
                         let _ = Self::notify_analysis_error(
                             err,
                             connection,
@@ -199,6 +342,8 @@ impl Server {
         ) {
             Ok(()) => {
                 eprintln!("handle_open_document: ok");
+                #[cfg(parol_verif)]
+                verif_gate::main_window(params.text_document.version);
                 Self::notify_analysis_ok(
                     connection,
                     params.text_document.uri,
@@ -207,6 +352,8 @@ impl Server {
             }
             Err(err) => {
                 eprintln!("handle_open_document: error");
+                #[cfg(parol_verif)]
+                verif_gate::main_window(params.text_document.version);
                 let document_state = self
                     .documents
                     .get(&params.text_document.uri)
@@ -238,6 +385,8 @@ impl Server {
         ) {
             Ok(()) => {
                 eprintln!("handle_change_document: ok");
+                #[cfg(parol_verif)]
+                verif_gate::main_window(params.text_document.version);
                 Self::notify_analysis_ok(
                     connection,
                     params.text_document.uri,
@@ -246,6 +395,8 @@ impl Server {
             }
             Err(err) => {
                 eprintln!("handle_change_document: error");
+                #[cfg(parol_verif)]
+                verif_gate::main_window(params.text_document.version);
                 let document_state = self
                     .documents
                     .get(&params.text_document.uri)
